@@ -2,6 +2,7 @@
 from __future__ import annotations
 
 import ast
+import itertools
 
 from ..axes import AV, AxisEval, Ratio, RoleClash, Top, source
 from ..core import Ctx
@@ -106,15 +107,55 @@ def source_table(ctx: Ctx):
     else unweighted counts): otherwise a weighted column share is divided by an unweighted row share."""
     import itertools
 
+    count_cascade(ctx, "baseline-source.cascade", "counts_with_missings", ["weighted_valid_counts", "unweighted_valid_counts", "weighted_counts", "unweighted_counts"],
+                  "weighted valid > unweighted valid > weighted > unweighted counts (raw arrays incl. missing elements)",
+                  "the baseline uses the same counts (and weighting) as the column proportion it is compared with")
+
+
+def inline_measures_calls(ctx: Ctx, e: ast.expr) -> ast.expr:
+    """`self._measures.<method>(args)` replaced by the summary of `_Measures.<method>` with its parameters bound (literal flags
+    decide its branches) and `self.` inside it re-rooted at `self._measures.`."""
+    import copy as _copy
+
+    from ..symex import SUMMARIZER, fold_consts
+
+    ms = ctx.repo.cls("cube.py", "_Measures")
+
+    class _Reroot(ast.NodeTransformer):
+        def visit_Name(self, n):
+            return ast.Attribute(value=ast.Name(id="self", ctx=ast.Load()), attr="_measures", ctx=ast.Load()) if n.id == "self" else n
+
+    class _Inline(ast.NodeTransformer):
+        def visit_Call(self, n):
+            self.generic_visit(n)
+            if isinstance(n.func, ast.Attribute) and u(n.func.value) == "self._measures":
+                m = ctx.repo.lookup(ms, n.func.attr)
+                if m is not None and m.kind in ("method", "staticmethod", "classmethod") and isinstance(m.node, ast.FunctionDef):
+                    params = [p_ for p_ in m.params if p_ not in ("self", "cls")]
+                    bind = dict(zip(params, n.args))
+                    bind.update({k.arg: k.value for k in n.keywords if k.arg in params})
+                    if len(bind) == len(params):
+                        try:
+                            body = fold_consts(SUMMARIZER.summarize(m.node, {k: _copy.deepcopy(v) for k, v in bind.items()}))
+                        except Exception:
+                            return n
+                        return _Reroot().visit(body)
+            return n
+
+    return ast.fix_missing_locations(_Inline().visit(_copy.deepcopy(e)))
+
+
+def count_cascade(ctx: Ctx, rule: str, member: str, order, expected_text: str, detail: str):
+    """Which count measure a Cube accessor hands out, as a decision table over the measures PRESENT in the response."""
     from ..dectab import DTop, Raises, Sym, SymInterp
+    from ..symex import distribute_attr, fold_consts
 
     cube = ctx.repo.cls("cube.py", "Cube")
-    where = "cube.py::Cube.counts_with_missings"
-    if ctx.repo.lookup(cube, "counts_with_missings") is None:
-        raise AnalysisError("Cube.counts_with_missings vanished")
-    from ..symex import distribute_attr
-
-    e = distribute_attr(expand(ctx.repo, cube, "counts_with_missings", stop=lambda m: m.name not in ("counts_with_missings", "has_weighted_counts", "weighted_counts") and not (m.name.startswith("_") and m.cls.name == "Cube" and m.name not in ("_measures", "_valid_idxs", "_all_dimensions", "_cube_response"))))
+    where = f"cube.py::Cube.{member}"
+    if ctx.repo.lookup(cube, member) is None:
+        raise AnalysisError(f"Cube.{member} vanished")
+    e = expand(ctx.repo, cube, member, stop=lambda m: m.name not in (member, "has_weighted_counts", "weighted_counts") and not (m.name.startswith("_") and m.cls.name == "Cube" and m.name not in ("_measures", "_valid_idxs", "_all_dimensions", "_cube_response")))
+    e = distribute_attr(fold_consts(inline_measures_calls(ctx, e)))
     names = ["weighted_valid_counts", "unweighted_valid_counts", "weighted_counts", "unweighted_counts"]
     bad, n, undec = [], 0, None
     for combo in itertools.product((True, False), repeat=3):
@@ -141,16 +182,20 @@ def source_table(ctx: Ctx):
             undec = str(exc)
             break
         n += 1
-        want = next(f"self._measures.{nm}.raw_cube_array" for nm in names if present[nm])
+        want = next(f"self._measures.{nm}" for nm in order if present[nm])
         got_t = got.text if isinstance(got, Sym) else repr(got)
-        if got_t != want:
-            bad.append(f"{ {k: v for k, v in present.items() if k != 'unweighted_counts'} }: {got_t} (specified {want})")
+        # the measure object that is selected, whatever is read off it afterwards (.raw_cube_array, [valid idxs], .astype)
+        sel = [nm for nm in names if f"self._measures.{nm}" in got_t]
+        if len(sel) != 1:
+            undec = f"selected measure not recognisable in {got_t[:80]}"
+            break
+        if f"self._measures.{sel[0]}" != want:
+            bad.append(f"{ {k: v for k, v in present.items() if k != 'unweighted_counts'} }: {sel[0]} (specified {want.split('.')[-1]})")
     ctx.count("count-measure presence combinations", n)
     if undec:
-        ctx.undecided("baseline-source.cascade", where, "DECTAB: " + undec, "cascade over the count measures present")
+        ctx.undecided(rule, where, "DECTAB: " + undec, "cascade over the count measures present")
     else:
-        ctx.ob("baseline-source.cascade", where, bad[:3] or f"{n} presence combinations", "weighted valid > unweighted valid > weighted > unweighted counts (raw arrays incl. missing elements)", not bad,
-               "the baseline uses the same counts (and weighting) as the column proportion it is compared with")
+        ctx.ob(rule, where, bad[:3] or f"{n} presence combinations", expected_text, not bad, detail)
 
 
 def factory(ctx: Ctx):
